@@ -42,7 +42,7 @@ def correspondence(ctx):
     many = chargen.many_sets_recipes()
     for k in range(nrec + len(many)):
         r = many[k - nrec] if k >= nrec else chargen.gen_recipe(rng)
-        b = rng.choice(chargen.BUDGETS) if k < nrec else chargen.DEFAULT_BUDGET
+        b = (getattr(r, "budget", None) or rng.choice(chargen.BUDGETS)) if k < nrec else chargen.DEFAULT_BUDGET
         tapes = chargen.make_tapes(rng, r, b, want=3)
         if len(r.live_families()) >= 9:
             tapes = tapes + chargen.each_set_missed_tapes(rng, r)
